@@ -83,9 +83,24 @@ func VerifH_VCodeHistory() {
 	}
 	sms := &verifSMS{}
 	logic := NewSimpleLogic(cfg, sms, nil)
+	// two distinct (area code, phone) pairs of digits; the second one splits its three digits either
+	// like the first (1+2) or the other way round (2+1), so that the two pairs can differ while
+	// their digits read the same in a row
+	digits := func(name string, n int) string {
+		b := make([]byte, n)
+		for i := range b {
+			b[i] = symx.OneOf(name, "0123456789")
+		}
+		return string(b)
+	}
 	pairs := [2]*verifPair{
-		{area: symx.String("area0", 1), phone: symx.String("phone0", 1)},
-		{area: symx.String("area1", 1), phone: symx.String("phone1", 2)},
+		{area: digits("area0", 1), phone: digits("phone0", 2)},
+		{},
+	}
+	if symx.Bool("area1TwoDigits") {
+		pairs[1].area, pairs[1].phone = digits("area1", 2), digits("phone1", 1)
+	} else {
+		pairs[1].area, pairs[1].phone = digits("area1", 1), digits("phone1", 2)
 	}
 	symx.Assume(pairs[0].area != pairs[1].area || pairs[0].phone != pairs[1].phone)
 	steps := symx.Param("steps", 3)
